@@ -189,6 +189,8 @@ Section Rec.
   Proof. induction fuel as [|k IH]; intros value verb depth ci; destruct value; cbn [print_kind]; kp2. apply IH. Qed.
   Lemma keeps_printValue value verb depth ci : keeps (printValue rec env value verb depth ci).
   Proof. unfold printValue. destruct depth; destruct value; kp2; try apply keeps_print_kind. Qed.
+  Lemma keeps_printArg_inner arg verb : keeps (printArg_inner rec env arg verb).
+  Proof. unfold printArg_inner. kp2. Qed.
   Lemma keeps_printArg_body arg verb : keeps (printArg_body rec env arg verb).
   Proof. unfold printArg_body, printArg_inner. kp2. Qed.
   Lemma keeps_printArg arg verb : keeps (printArg rec env arg verb).
